@@ -256,6 +256,7 @@ CURATED = {
     "nestsel": "C(S(C(l,l),R(l,l)),l)",
     "widesel": "C(S(l,C(l,l),R(l,l),l),l)",
     "nestutil": "C(U(C(l,l),l),N(R(l,l),l))",
+    "utilrand": "C(U(l,N(l,l,l)),l)",
     "headless": "c(c(l,l),o(l,r(l,l)),l)",
     "ortho89": "C(O(l,l,l,l,l,l,l,C(l,l)),O(l,l,l,l,l,l,l,l,R(l,l)),l)",
     "ortho8last": "C(l,O(l,l,l,l,l,l,l,l))",
